@@ -474,6 +474,13 @@ def resolveConflicts(actions, state=None):
         if conflicts:
             raise ConfigurationConflictError(conflicts)
 
+        # actions overridden by a shorter include path will never run
+        resolved = {id(action) for _, action in output}
+        for ainfos in unique.values():
+            for _, action in ainfos:
+                if id(action) not in resolved:
+                    state.remaining_actions.remove(action)
+
         # sort resolved actions by "i" and yield them one by one
         for i, action in sorted(output, key=operator.itemgetter(0)):
             # do not memoize the order until we resolve an action inside it
